@@ -81,4 +81,40 @@ impl Item {
     #[verifier::external_body] pub fn can_derive_eq(&self, c: &BindgenContext) -> (r: bool) ensures r == self.s_eq(c) { unimplemented!() }
 }
 
+// ---- hand-written-impl decisions in <CompInfo as CodeGenerator>::codegen (statements extracted by R18)
+#[derive(Clone, Copy, PartialEq, Eq, Structural)]
+pub struct ItemId(pub usize);
+pub struct BindgenOptions {
+    pub derive_debug: bool, pub impl_debug: bool, pub derive_default: bool,
+    pub derive_partialeq: bool, pub impl_partialeq: bool,
+}
+impl DerivableTraits {
+    // bitflags' contains(): every flag set in `o` is set in `self`
+    pub open spec fn s_contains(&self, o: DerivableTraits) -> bool {
+        (o.debug ==> self.debug) && (o.default_ ==> self.default_) && (o.copy ==> self.copy) && (o.clone ==> self.clone) && (o.hash ==> self.hash)
+        && (o.partial_ord ==> self.partial_ord) && (o.ord ==> self.ord) && (o.partial_eq ==> self.partial_eq) && (o.eq ==> self.eq)
+    }
+    #[verifier::external_body] pub fn contains(&self, o: DerivableTraits) -> (r: bool) ensures r == self.s_contains(o) { unimplemented!() }
+}
+impl BindgenContext {
+    pub uninterp spec fn spec_options(&self) -> BindgenOptions;
+    pub uninterp spec fn s_no_debug_by_name(&self, it: &Item) -> bool;
+    pub uninterp spec fn s_no_default_by_name(&self, it: &Item) -> bool;
+    pub uninterp spec fn s_peq_or_pord(&self, id: ItemId) -> CanDerive;
+    #[verifier::external_body] pub fn options(&self) -> (r: &BindgenOptions) ensures *r == self.spec_options() { unimplemented!() }
+    #[verifier::external_body] pub fn no_debug_by_name(&self, it: &Item) -> (r: bool) ensures r == self.s_no_debug_by_name(it) { unimplemented!() }
+    #[verifier::external_body] pub fn no_default_by_name(&self, it: &Item) -> (r: bool) ensures r == self.s_no_default_by_name(it) { unimplemented!() }
+    #[verifier::external_body] pub fn lookup_can_derive_partialeq_or_partialord(&self, id: ItemId) -> (r: CanDerive) ensures r == self.s_peq_or_pord(id) { unimplemented!() }
+}
+impl Item {
+    pub uninterp spec fn s_id(&self) -> ItemId;
+    #[verifier::external_body] pub fn id(&self) -> (r: ItemId) ensures r == self.s_id() { unimplemented!() }
+}
+#[verifier::external_body]
+pub struct CompInfo { _p: core::marker::PhantomData<()> }
+impl CompInfo {
+    pub uninterp spec fn s_forward_decl(&self) -> bool;
+    #[verifier::external_body] pub fn is_forward_declaration(&self) -> (r: bool) ensures r == self.s_forward_decl() { unimplemented!() }
+}
+
 } // verus!
